@@ -67,7 +67,16 @@ j = 0
 while j < 2:
     j += 1
     (p, *q), r = [j, 2, 3], j
-print(total, helper(1, 2, 3, key=lambda z: z + 1), Shape(3).area(), p, q, r, math.floor(2.5))
+msg = f'{total!r:>{j}}|{helper(1)} {p}'
+width: int = total + 1
+def annotated(a: int, b: 'str' = 'x', *c: int, d: float = 1.0, **e: int) -> int:
+    local: int = a
+    other: list
+    return local
+class WithAnn:
+    field: int = 3
+    name: str
+print(total, helper(1, 2, 3, key=lambda z: z + 1), Shape(3).area(), p, q, r, math.floor(2.5), msg, width, annotated(1))
 '''
 
 STMT_KINDS = {
@@ -143,11 +152,15 @@ def expr_positions(tree):
                 if not isinstance(v, ast.AST):
                     continue
                 child_fn = in_fn or isinstance(node, (ast.FunctionDef, ast.Lambda))
-                fs = in_fstring or isinstance(node, (ast.JoinedStr, ast.FormattedValue))
+                # the format_spec of a field is a JoinedStr, not an expression position
+                fs = in_fstring or (isinstance(node, ast.FormattedValue) and field == "format_spec")
+                ok_parent = not isinstance(node, (ast.arguments, ast.keyword, ast.NamedExpr, ast.comprehension, ast.JoinedStr))
+                if isinstance(node, ast.arg):
+                    ok_parent = field == "annotation"          # parameter annotations are expressions too
                 if isinstance(v, ast.expr) and not isinstance(getattr(v, "ctx", None), (ast.Store, ast.Del)) \
                         and not isinstance(v, (ast.Starred, ast.Slice, ast.JoinedStr, ast.FormattedValue)) \
-                        and not fs and field not in ("decorator_list", "bases", "keywords", "annotation", "returns") \
-                        and not isinstance(node, (ast.arguments, ast.arg, ast.keyword, ast.NamedExpr, ast.comprehension)):
+                        and not fs and field not in ("decorator_list", "bases", "keywords") and ok_parent \
+                        and not (isinstance(node, ast.AnnAssign) and field == "target"):
                     out.append((node, field, idx if isinstance(value, list) else None, v, child_fn))
                 rec(v, child_fn if not isinstance(v, ast.ClassDef) else False, fs)
 
